@@ -265,7 +265,7 @@ pub fn const_items(id: usize, l: &Layout, words: &[u32]) -> String {
 }
 
 pub fn corpus_c15(tier: Tier, seed: u64) -> Vec<(usize, Layout)> {
-    let n = tier.pick(600usize, 4000usize);
+    let n = tier.pick(600usize, 9000usize);
     let mut v: Vec<Layout> = Vec::new();
     let mut p = Profile::general();
     p.kinds = [3, 5, 3, 3, 2, 2, 2];
@@ -276,6 +276,17 @@ pub fn corpus_c15(tier: Tier, seed: u64) -> Vec<(usize, Layout)> {
     p.need_builder = true;
     p.access = AccessMode::AllRW;
     v.extend(sample_choices(seed, 22, n / 2, 320).iter().map(|w| build_layout(&p, w)));
+    // systematic: builder steps over very long arrays (const evaluation has its own limits)
+    for (b, w, k) in [(128u32, 1u32, 128u32), (127, 1, 127), (128, 4, 32), (128, 2, 64), (64, 1, 64), (125, 1, 125), (126, 3, 42)] {
+        let ty = if w == 1 && b % 2 == 0 { FieldTy::Bool } else { crate::corpus::uty(w) };
+        let mut f = crate::corpus::fld("arr", 0, w, ty, Access::RW);
+        f.array = Some(ArrayDecl { count: k, stride: None, colon: false });
+        let mut l = crate::corpus::lay(b, vec![f]);
+        if (k * w) < b {
+            l.default = Some(DefaultDecl { value: 0, named_const: false, radix: 10 });
+        }
+        v.push(l);
+    }
     v.into_iter().enumerate().collect()
 }
 
